@@ -36,6 +36,7 @@ COMBOS = SINGLES + [
     ("p", "pnc"), ("pni", "pninc"), ("pninc", "p"), ("pnc", "pni", "p"), ("pkw", "pninc"),
     ("co", "ct"), ("ct", "cs"), ("cu", "cf"), ("cs", "co", "ct"),
     ("p", "co"), ("ct", "pninc"), ("cs", "pnc", "ct"), ("pni", "cu", "p"), ("co", "pninc", "cf"),
+    ("coni",), ("ctni", "p"), ("co", "coni", "pni"), ("p", "ctni", "ct"),
 ]
 SMALL = [("p",), ("pninc",), ("co",), ("ct", "pnc"), ("cs", "pni"), ()]
 
@@ -221,7 +222,7 @@ def _children_part(e, node, cls, kw, fields, variant, sort_keys, scenario):
         exp_wf = []
         exp_icf = []
         for name, k in ordered:
-            val = kw.get(name, () if k == "ct" else None)
+            val = kw.get(name, () if k in ("ct", "ctni") else None)
             if G.KINDS[k]["coll"]:
                 exp_icf.append((val, name))
                 for i, c in enumerate(val):
@@ -232,7 +233,7 @@ def _children_part(e, node, cls, kw, fields, variant, sort_keys, scenario):
                     exp_wf.append((id(val), name, None))
         exp_decl = []
         for name, k in cfields:
-            val = kw.get(name, () if k == "ct" else None)
+            val = kw.get(name, () if k in ("ct", "ctni") else None)
             if G.KINDS[k]["coll"]:
                 exp_decl.extend(id(c) for c in val)
             elif val is not None:
